@@ -75,4 +75,14 @@ def assumed_contract_monitor():
     except Exception:
         doc = {"output": out[-800:]}
     doc["exit"] = code
+    # the reference implementation of Future/Task (verified from source) against the accelerator that normally runs
+    code2, out2 = run_native("replay/pytask_crosscheck.py", [os.environ.get("VERIF_SEED", "0") or "0", "5000"], timeout=900, full=True)
+    try:
+        d2 = json.loads(out2[out2.index("{"): out2.rindex("}") + 1])
+    except Exception:
+        d2 = {"output": out2[-800:]}
+    d2["exit"] = code2
+    doc["reference_vs_accelerator(Future/Task)"] = d2
+    if code2 == 1:
+        doc["refuted"] = list(doc.get("refuted") or []) + ["the C accelerator of Future/Task and the reference implementation differ on a history: " + out2[:600]]
     return doc
